@@ -25,8 +25,8 @@ class PathResult:
     node: ast.AST | None
     trail: list
 
-    def sequences(self, keep=None):
-        return expand_events(self.data.events, keep)
+    def sequences(self, keep=None, extra=None):
+        return expand_events(self.data.events, keep, extra=extra)
 
     @property
     def last(self) -> Event | None:
